@@ -1,0 +1,73 @@
+#pragma once
+// Verification hooks. Everything in here only exists when the build defines
+// SQFVM_RUNTIME_VERIF; without the define this header is empty and no call
+// site is compiled in.
+#ifdef SQFVM_RUNTIME_VERIF
+#include <chrono>
+#include <cstddef>
+
+namespace sqf::runtime
+{
+    class runtime;
+    class context;
+}
+namespace sqf::runtime::verif
+{
+    // Observation points (H3). Fired after the state change they describe.
+    enum class obs
+    {
+        instr_done,     // execute_do: one instruction executed and its error handling finished
+        frame_done,     // execute_do: a completed frame was popped and its value re-pushed
+        slice_begin,    // execute(start): a context is about to get a slice (or be skipped)
+        slice_end,      // execute(start): the slice returned
+        ctx_erase,      // execute(start): the active context was erased from the list
+        run_begin,      // execute(...): executor acquired the VM
+        run_end,        // execute(...): executor is about to release the VM
+        err_unwind,     // execute_do: runtime error was handed to a recovering frame
+        err_fail        // execute_do: runtime error ended the run
+    };
+    // Sync points (H4) inside runtime::execute.
+    enum class sync
+    {
+        exec_acquired,      // after the CAS on m_run_atomic succeeded
+        exec_running,       // after m_state = running
+        exec_loop_poll,     // before the executor polls the exit flag inside the start loop
+        exec_before_final,  // before the final exit-flag check
+        exec_before_release,// before m_run_atomic = false
+        ctl_stop_checked,   // stop/abort: after the state + atomic checks, before the flag write
+        ctl_done            // stop/abort: after the flag write
+    };
+    struct hooks
+    {
+        std::chrono::system_clock::time_point (*now)() = nullptr;                   // H1
+        size_t slice_len = 0;                                                     // H2 (0: default)
+        void (*observe)(obs what, ::sqf::runtime::runtime& rt, size_t arg) = nullptr; // H3
+        void (*at_sync)(sync where, ::sqf::runtime::runtime& rt) = nullptr;         // H4
+    };
+    inline hooks& get()
+    {
+        static hooks h;
+        return h;
+    }
+    inline std::chrono::system_clock::time_point now()
+    {
+        auto f = get().now;
+        return f ? f() : std::chrono::system_clock::now();
+    }
+    inline size_t slice_len(size_t def)
+    {
+        auto n = get().slice_len;
+        return n ? n : def;
+    }
+    inline void observe(obs what, ::sqf::runtime::runtime& rt, size_t arg = 0)
+    {
+        auto f = get().observe;
+        if (f) { f(what, rt, arg); }
+    }
+    inline void at_sync(sync where, ::sqf::runtime::runtime& rt)
+    {
+        auto f = get().at_sync;
+        if (f) { f(where, rt); }
+    }
+}
+#endif // SQFVM_RUNTIME_VERIF
